@@ -130,7 +130,9 @@ def run():
 
     # ---- several priorities are applied from the last to the first
     try:
-        extra = dict(listsum.LIST)
+        import optsum
+        extra = dict(optsum.SUMMARIES)
+        extra.update(listsum.LIST)
         extra.update(dp.PURE)
         extra[r"^(group::)?FileSubGroup::group$|FileSubGroup<.*>::group$"] = dp.group_summary([[0], [1]])
 
@@ -138,7 +140,7 @@ def run():
             st.events.append(mirsym.Event("call", "sort_by_priority", tuple(args), None, len(st.pc), e.site(st)))
             return ListV((), "Vec")       # no metadata errors
         extra[r"(^|::)sort_by_priority$"] = s_sbp
-        eng = oblig.engine(prog, unroll=4, inline=dp.INL, extra=extra)
+        eng = oblig.engine(prog, unroll=4, inline=dp.dedupe_inliner(prog), extra=extra)
         part = prog.find(r"^(dedupe::)?partition$")
         fi = prog.src.field_index
         files = [Lazy("f%d" % i, "dedupe::PathAndMetadata") for i in range(2)]
